@@ -9,7 +9,8 @@
 
    MODELLED FRAGMENT: options whose assignments are direct / append / index with argument or constant values
    and non-disjunction envelopes; argument mappings Direct, Builder, Array, Map; at most one builder per
-   object (no BuilderDisjunction), no composable slots / runtime mappings, no lists of disjunction options.
+   object (no BuilderDisjunction), no composable slots / runtime mappings.  Lists of unions exposed as one
+   appending option per branch (listOfDisjunctionOptions) are modelled.
    Everything else is GUnmodelled. *)
 From Coq Require Import List String ZArith Bool Ascii.
 From Cog Require Import Model.IR Model.Json Model.Builders Model.GoSem Model.BuilderEval.
@@ -175,7 +176,16 @@ Definition mapping_for_option (e : benv) (b : builder) (gp : list akey) (cm : co
           | None => (args ++ [mkAMapping (AMUnmodelled "index without argument") []], gp, i)
           end
         else
-        if from_disjunction_struct e a then (args ++ [mkAMapping (AMUnmodelled "envelope of a disjunction struct") []], gp, i) else
+        if from_disjunction_struct e a then
+          (* argumentFromDisjunctionStruct: the argument is read from the first envelope member, guarded by
+             `member != nil` for every envelope member *)
+          match envelope_of a with
+          | Some (_, ((p0, _) :: _) as vals) =>
+              (args ++ [mkAMapping (argument_for_type arg_fuel e arg_name (vp' ++ p0) (path_last_type p0))
+                                   (map (fun pv => mkGuard (vp' ++ fst pv) "!=" DNil) vals)], gp, i)
+          | _ => (args ++ [mkAMapping (AMUnmodelled "empty envelope of a disjunction struct") []], gp, i)
+          end
+        else
         match envelope_of a with
         | Some (_, vals) =>
             (args ++ map (fun pv => mkAMapping (argument_for_type arg_fuel e arg_name (vp' ++ fst pv) (path_last_type (vp' ++ fst pv))) []) vals,
@@ -187,6 +197,16 @@ Definition mapping_for_option (e : benv) (b : builder) (gp : list akey) (cm : co
   end.
 
 Definition drop_last {A} (l : list A) : list A := List.removelast l.
+
+(* bookkeeping of generator.listOfDisjunctionOptions: convertOption returns an EMPTY mapping for an option that
+   appends one branch of a union to a list and remembers the option under the list's path.  Here the empty
+   mapping itself carries the note (cm_repeat_as = the marker, cm_repeat_index = the path; no options, so it is
+   filtered out like every empty mapping); from_builder reads the notes back in option order *)
+Definition lod_marker_name : string := "<list-of-disjunction-options>".
+Definition lod_marker (path : string) : convmapping := mkConvMapping None lod_marker_name path [].
+Definition is_lod_marker (m : convmapping) : bool :=
+  (seqb (cm_repeat_as m) lod_marker_name && match cm_options m with [] => true | _ => false end
+   && match cm_repeat_for m with None => true | Some _ => false end)%bool.
 
 (* convertOption *)
 Definition convert_option (e : benv) (b : builder) (gp : list akey) (o : boption) : convmapping * list akey :=
@@ -203,7 +223,7 @@ Definition convert_option (e : benv) (b : builder) (gp : list akey) (o : boption
       match cm_repeat_for cm with
       | Some _ =>
           if from_disjunction_struct e a0
-          then (mkConvMapping None "" "" [mkOptMapping o [] [mkAMapping (AMUnmodelled "list of disjunction options") []]], gp)
+          then (lod_marker (path_string (as_path a0)), gp)        (* listOfDisjunctionOptions[path] += option *)
           else
             match mapping_for_option e b gp cm o with
             | (Some om, gp') => (mkConvMapping (cm_repeat_for cm) (cm_repeat_as cm) (cm_repeat_index cm) [om], gp')
@@ -217,16 +237,53 @@ Definition convert_option (e : benv) (b : builder) (gp : list akey) (o : boption
       end
   end.
 
+(* the groups of listOfDisjunctionOptions, in order of first appearance (Go ranges over a map: the order of
+   the groups is not fixed; they concern different lists) *)
+Fixpoint lod_add (groups : list (string * list boption)) (k : string) (o : boption) : list (string * list boption) :=
+  match groups with
+  | [] => [(k, [o])]
+  | (k', os) :: r => if seqb k' k then (k', os ++ [o]) :: r else (k', os) :: lod_add r k o
+  end.
+
+Definition lod_groups (opts : list boption) (ms : list convmapping) : list (string * list boption) :=
+  fold_left (fun g om => if is_lod_marker (snd om) then lod_add g (cm_repeat_index (snd om)) (fst om) else g)
+            (combine opts ms) [].
+
+(* convertListOfDisjunctionOptions: ONE loop over the list, every branch option inside it *)
+Definition convert_lod (e : benv) (b : builder) (gp : list akey) (opts : list boption) : convmapping * list akey :=
+  match opts with
+  | o0 :: _ =>
+      match op_assignments o0 with
+      | a0 :: _ =>
+          let cm := mkConvMapping (Some (input_root b ++ as_path a0)) "item" "" [] in
+          let '(oms, gp') :=
+            fold_left (fun acc o => let '(oms, gp) := acc in
+                                    match mapping_for_option e b gp cm o with
+                                    | (Some om, gp') => (oms ++ [om], gp')
+                                    | (None, gp') => (oms, gp')
+                                    end) opts ([], gp) in
+          (mkConvMapping (cm_repeat_for cm) "item" "" oms, gp')
+      | [] => (mkConvMapping None "" "" [], gp)
+      end
+  | [] => (mkConvMapping None "" "" [], gp)
+  end.
+
+Definition lod_mappings (e : benv) (b : builder) (gp : list akey) (groups : list (string * list boption)) : list convmapping :=
+  fst (fold_left (fun acc g => let '(lms, gp) := acc in
+                               let '(m, gp') := convert_lod e b gp (snd g) in (lms ++ [m], gp'))
+                 groups ([], gp)).
+
 Definition from_builder (e : benv) (b : builder) : converter :=
   let ctor_args :=
     flat_map (fun a => match as_value a with
                        | AValue (Some _) _ _ => [(input_root b ++ as_path a, path_last_type (as_path a))]
                        | _ => [] end) (ct_assignments (b_ctor b)) in
-  let '(ms, _) := fold_left (fun acc o => let '(ms, gp) := acc in
-                                          let '(m, gp') := convert_option e b gp o in (ms ++ [m], gp'))
-                            (b_options b) ([], []) in
+  let '(ms, gp) := fold_left (fun acc o => let '(ms, gp) := acc in
+                                           let '(m, gp') := convert_option e b gp o in (ms ++ [m], gp'))
+                             (b_options b) ([], []) in
   mkConverter (b_pkg b) (b_name b) ctor_args
-              (filter (fun m => negb (match cm_options m with [] => true | _ => false end)) ms).
+              (filter (fun m => negb (match cm_options m with [] => true | _ => false end))
+                      (ms ++ lod_mappings e b gp (lod_groups (b_options b) ms))).
 
 (* ---------- what the generated converter does on a value ---------- *)
 Definition venv := list (string * gval).
